@@ -267,7 +267,8 @@ def run(ctx):
         return
     t = "thorough" if ctx.thorough else "quick"
     cases = []
-    for grp in ("ew", "contract", "unary") + (("tensor",) if ctx.thorough else ()):   # quick: tensorprod is part of the contract configuration
+    # quick: tensorprod is part of the contract configuration; contract4: operands up to rank 4 (fourth-order constants) on one size
+    for grp in ("ew", "contract", "unary") + (("tensor",) if ctx.thorough else ("contract4",)):
         res = ctx.tlc_must_hold("FeShapes", f"FeShapes_{grp}_{t}.cfg", what="TypeRule", workers=8, timeout=3000)
         cases += res.prints.get("CASE", [])
     ctx.pmap(_job, [(i + 1000 * ctx.seed, c) for i, c in enumerate(cases)])
